@@ -106,7 +106,10 @@ class TorchNNPureFunction(PureFunction):
 
     def _get_all_obj_params_init(self) -> List:
         # get the tensors in the torch.nn.Module to be used as params
-        named_params = list(self.obj.named_parameters())
+        # every name of every parameter, including the further names of a tied
+        # (shared) parameter which named_parameters() drops: all of them must be
+        # substituted together (the Uniquifier maps them to one object parameter)
+        named_params = list(_named_parameters_with_duplicates(self.obj))
         if len(named_params) == 0:
             paramnames: List[str] = []
             obj_params: List[Union[torch.Tensor, torch.nn.Parameter]] = []
@@ -151,6 +154,19 @@ class MultiSiblingPureFunction(PureFunction):
     def _set_all_obj_params(self, allobjparams: List):
         for i, pfunc in enumerate(self.pfuncs):
             pfunc._set_all_obj_params(allobjparams[self.cumsum_idx[i]:self.cumsum_idx[i + 1]])
+
+def _named_parameters_with_duplicates(module: torch.nn.Module, prefix: str = "", memo=None):
+    # same order as torch.nn.Module.named_parameters(), but a parameter that is
+    # registered under several names is listed under each of them
+    # (a sub-module is visited once: all its names refer to the same object)
+    memo = set() if memo is None else memo
+    memo.add(id(module))
+    for name, param in module._parameters.items():
+        if param is not None:
+            yield prefix + name, param
+    for name, submodule in module._modules.items():
+        if submodule is not None and id(submodule) not in memo:
+            yield from _named_parameters_with_duplicates(submodule, prefix + name + ".", memo)
 
 def _check_identical_objs(objs1: List, objs2: List) -> bool:
     for obj1, obj2 in zip(objs1, objs2):
